@@ -181,9 +181,12 @@ def idxBoundedCheck (a : Bytes) : Bool :=
       let run := (a.drop i).take j
       !(run.all isDigit) || decide (decVal run < 2 ^ 31)
 
-/-- the buffer behind the type string is long enough for every type alternative to be
-    compared without leaving it (`rtosc_match_args` advances `arg_str` once per pattern
-    character, also after the type string has ended) -/
+/-- (Legacy.)  Before the repair fixes/C05-args-overread.patch `rtosc_match_args` advanced
+    `arg_str` once per pattern character, also after the type string had ended, and the C05
+    theorems assumed that the buffer behind the type string is long enough for every type
+    alternative.  The repaired code reads nothing behind the type string's NUL and no C05
+    theorem uses this predicate any more; it is kept only because lemmas of C04
+    (Proofs/Ports*.lean) still carry it as a (now superfluous) hypothesis. -/
 def ArgsInBounds (p : Pat) (avail : Nat) : Prop :=
   ∀ ts, p.types = some ts → ∀ a ∈ ts, a.length ≤ avail
 
